@@ -55,6 +55,10 @@ CHECKS = {
    text="Real controller.run with the k-th list result (k<=3) being a client error, a non-list object, a list whose items are not API objects, or an object without list accessor; the engine explores all interleavings and shows the controller is Done, Error() is non-nil and (for a client error) its cause chain ends in the injected error, the cache is shut down, no further list is applied, nothing is ready when k=1, every library goroutine has exited; a deliberate Close() reports no error. Watch faults never terminate the controller (C03/C04 harnesses assert it for every fault sequence they explore).",
    note="Bounds: k<=3 (thorough 4). meta.ExtractList is modelled (reflection), meta.ListAccessor runs for real. The subscriber tree below a real Builder.Create() composition is covered by C11/C12.",
    ref="DESIGN.md §4 C14"),
+ "C04": dict(
+   text="The real watcher and watch sessions run under the real controller loop against a fake API server with a history of n events (symbolic keys, solver-chosen types): every Watch(rv) call either fails or streams the events newer than rv interleaved with Status / Bookmark frames, and may close before any event or after the burst, within a fault budget; retry timers fire as environment transitions; exactly one list is delivered. All interleavings of controller, watcher, sessions, streams and timers are explored (sleep sets + state cache). At quiescence every event of the history has been applied to the cache in history order (replays allowed, skips not) and published, every Watch call resumes at the list version or at an event version, and neither watcher nor controller has terminated.",
+   note="Bounds: quick n<=2 events and <=1 fault (connect error or close at any position), thorough n<=3 and <=2 faults; the final Watch call is served without fault (otherwise the premise 'the server emits it' fails); EventBufsiz scaled to 3 (4) - no overflow occurs within the bound. Consumer/producer speed ratios = all interleavings.",
+   ref="DESIGN.md §4 C04"),
 }
 NOT_APPLICABLE = {}
 PENDING = "check under construction in this session: harness not yet registered (no claim is made)"
